@@ -141,6 +141,8 @@ def make_x86(rng, name, shape=None):
     pool = [RBP, 15, 14, 13, 12, RBX]
     np_ = rng.range(0, 6)
     saved = [r for r in pool if r in rng.shuffle(list(pool))[:np_]]
+    if rng.chance(1, 2):
+        rng.shuffle(saved)                 # the format allows any push order (rbp anywhere among the saved registers)
     if shape == "indirect":
         alloc = 8 * rng.range(256, 4096)
     else:
@@ -198,7 +200,10 @@ def make_a64(rng, name, shape=None):
         for _ in range(rng.range(1, 4)):
             f.emit(I("fill"), "body", rng.choice(A_FILL))
         f.emit(I("add", n), "epilogue", a_add_sp(n))
-        f.emit(I("ret"), "epilogue", A_RET)
+        if rng.chance(1, 3):
+            f.emit(I("b"), "epilogue", a_word(0x14000000 | rng.below(1 << 26)))       # tail call
+        else:
+            f.emit(I("ret"), "epilogue", A_RET)
         f.opcode = 0x02000000 | ((n // 16) << 12)
         f.alloc = n
         return f
@@ -212,6 +217,8 @@ def make_a64(rng, name, shape=None):
         f.emit(I("stp_pre", 29, 30, -16), "prologue", a_stp_pre(29, 30, -16))
         f.emit(I("addfp", 0), "prologue", a_add_fp_sp(0))
     else:
+        # the frame record sits at the top of the frame (CFA = fp + 16): the first store's writeback covers
+        # exactly the saved pairs; locals are allocated by a separate sub sp
         tot = 16 * (npairs + 1)
         a, b = pairs[0]
         f.emit(I("stp_pre", a, b, -tot), "prologue", a_stp_pre(a, b, -tot))
@@ -219,6 +226,7 @@ def make_a64(rng, name, shape=None):
             f.emit(I("stp_off", a, b, 16 * k), "prologue", a_stp_off(a, b, 16 * k))
         f.emit(I("stp_off", 29, 30, 16 * npairs), "prologue", a_stp_off(29, 30, 16 * npairs))
         f.emit(I("addfp", 16 * npairs), "prologue", a_add_fp_sp(16 * npairs))
+        f.pre_tot = tot
     if alloc:
         f.emit(I("sub", alloc), "prologue", a_sub_sp(alloc))
     a_body(f, rng, rng.range(1, 3))
@@ -227,13 +235,16 @@ def make_a64(rng, name, shape=None):
     if npairs == 0:
         f.emit(I("ldp_post", 29, 30, 16), "epilogue", a_ldp_post(29, 30, 16))
     else:
-        tot = 16 * (npairs + 1)
+        tot = f.pre_tot
         f.emit(I("ldp_off", 29, 30, 16 * npairs), "epilogue", a_ldp_off(29, 30, 16 * npairs))
         for k, (a, b) in reversed(list(enumerate(pairs[1:], 1))):
             f.emit(I("ldp_off", a, b, 16 * k), "epilogue", a_ldp_off(a, b, 16 * k))
         a, b = pairs[0]
         f.emit(I("ldp_post", a, b, tot), "epilogue", a_ldp_post(a, b, tot))
-    f.emit(I("retab" if signing else "ret"), "epilogue", A_RETAB if signing else A_RET)
+    if not signing and rng.chance(1, 4):
+        f.emit(I("b"), "epilogue", a_word(0x14000000 | rng.below(1 << 26)))           # tail call
+    else:
+        f.emit(I("retab" if signing else "ret"), "epilogue", A_RETAB if signing else A_RET)
     f.signing, f.alloc, f.npairs = signing, alloc, npairs
     if shape.startswith("dwarf"):
         f.dwarf = True
@@ -531,13 +542,14 @@ def module_macho(script, mid, prog, base, base_svma, rng, merge=True, with_text=
     return ents
 
 # ------------------------------------------------------------------ scenarios
-def make_scenario(rng, prog, base, top, depth):
+def make_scenario(rng, prog, base, top, depth, inner=None):
+    """inner = (function, instruction index) forces the innermost frame and its interruption point"""
     arch = prog["arch"]
     funcs = prog["funcs"]
     callers = [f for f in funcs if f.can_call]
     st = St(arch, rng, top)
     st.pac = 0x5a << 56 if arch == "a64" else 0
-    chain_funcs = [rng.choice(callers) for _ in range(depth - 1)] + [rng.choice(funcs)]
+    chain_funcs = [rng.choice(callers) for _ in range(depth - 1)] + [inner[0] if inner else rng.choice(funcs)]
     frames = []
     # thread start: null return address
     if arch == "x86":
@@ -563,7 +575,7 @@ def make_scenario(rng, prog, base, top, depth):
                 st.lr = ra
             ra_in = ra
         else:
-            i = rng.below(len(f.insns))
+            i = inner[1] if inner else rng.below(len(f.insns))
             run_to(st, f, i, rng)
             off, insn, ph = f.insns[i]
             frames.append(dict(func=f, ra=ra_in, pc=base + f.start + off, kind="first", sp=st.sp, fp=st.fp, lr=st.lr,
